@@ -91,6 +91,7 @@ class ClobberLeg(object):
             "keep_open": st.booleans(),
             "old_emptied": st.sampled_from([False, False, True]),
             "old_no_stats": st.sampled_from([False, False, True]),
+            "dbname": st.sampled_from(["target.db", "target.db", "annotation[1].db", "a*b?.db", "sp ace.db"]),
         })
 
     def classify(self, case):
@@ -106,7 +107,7 @@ class ClobberLeg(object):
         new_text = make_annotation(case["new"])
         p_old = ctx.write("old.txt", old_text)
         p_new = ctx.write("new.txt", new_text)
-        dbfn = ctx.path("target.db")
+        dbfn = ctx.path(case.get("dbname") or "target.db")
         db = gffutils.create_db(p_old, dbfn)
         if case.get("old_emptied"):
             # an existing database need not hold features any more: it still has directives, dialect and id counters
